@@ -204,7 +204,9 @@ func NewHTTPBodyReader(readJSON, useUsernameNotEmail bool) *HTTPBodyReader {
 			"recover_end": {FormValuePassword, authboss.ConfirmPrefix + FormValuePassword},
 		},
 		Whitelist: map[string][]string{
-			"register": {FormValueEmail, FormValuePassword},
+			// the password is deliberately not whitelisted: arbitrary values are handed
+			// to ArbitraryUser.PutArbitrary and typically persisted as they are
+			"register": {FormValueEmail},
 		},
 	}
 }
